@@ -181,6 +181,10 @@ def _nontrivial(n, edges):
 
 def run(ctx):
     rng = ctx.rng
+    from rv.props import concurrent_jobs
+
+    concurrent_jobs.run_some(ctx, "C13")        # the same calls from a thread pool (rv/core/threads.py)
+    ctx.must_monitors.append("concurrent_calls")
     ctx.rule = ("labelled undirected graphs as edge lists over input positions; non-trivial = at least one edge and "
                 "(>= 2 components or a path of length >= 2); distinct = distinct (n, edge set)")
     ctx.assumptions += ["comparison function is symmetric and deterministic", "sound events are identified by object identity at the callback boundary"]
@@ -241,21 +245,38 @@ def run(ctx):
     run_large(ctx)
 
 
+def _gen_edges(shape, n):
+    if shape == "long_chain":
+        # each event similar to the next one in input order (consecutive calls of one animal): a walk from the first
+        # event passes through all of them
+        return [(i, i + 1) for i in range(n - 1)]
+    if shape == "big_cluster_plus_isolated":
+        return [(a, b) for a in range(n - 3) for b in range(a + 1, n - 3)]
+    if shape == "clique":
+        return [(a, b) for a in range(n) for b in range(a + 1, n)]
+    if shape == "hub_last":
+        # one event similar to all the others (a long background call), the others pairwise dissimilar
+        return [(i, n - 1) for i in range(n - 1)]
+    if shape == "hub_first_plus_pair":
+        return [(0, i) for i in range(1, n - 2)] + [(n - 2, n - 1)]
+    raise ValueError(shape)
+
+
 def run_large(ctx):
-    """'For every number of sound events': one long chain and one big cluster (a night of calls linked pairwise)."""
-    rng = ctx.rng
-    for shape, n in (("long_chain", 1500), ("big_cluster_plus_isolated", 700)) if ctx.shard == 0 else ():
-        if shape == "long_chain":
-            # each event similar to the next one in input order (consecutive calls of one animal): a walk from the first
-            # event passes through all of them
-            edges = [(i, i + 1) for i in range(n - 1)]
-        else:
-            edges = [(a, b) for a in range(n - 3) for b in range(a + 1, n - 3)]
-        ctx.case(("large", shape), {"n": n, "edges": "generated:" + shape}, nontrivial=True)
-        _judge_once(ctx, n, edges)
+    """'For every number of sound events': one long chain and one big cluster (a night of calls linked pairwise), and
+    events with exactly 127 / 128 / 255 / 256 / 511 / 512 partners (counts that do not fit the next smaller integer type)."""
+    shapes = [("long_chain", 1500), ("big_cluster_plus_isolated", 700)]
+    for d in (127, 128, 255, 256, 511, 512):
+        shapes += [("clique", d + 1), ("hub_last", d + 1), ("hub_first_plus_pair", d + 3)]
+    for k, (shape, n) in enumerate(shapes):
+        if (k % ctx.nshards != ctx.shard) if ctx.thorough else ctx.shard != 0:
+            continue
+        ctx.case(("large", shape, n), {"n": n, "edges": "generated:" + shape}, nontrivial=True)
+        _judge_once(ctx, n, _gen_edges(shape, n))
 
 
 def replay(ctx, w):
     s = w["spec"]
     ctx.case("replay", s)
-    judge(ctx, s["n"], [tuple(e) for e in s["edges"]])
+    edges = _gen_edges(s["edges"].split(":", 1)[1], s["n"]) if isinstance(s["edges"], str) else [tuple(e) for e in s["edges"]]
+    judge(ctx, s["n"], edges)
